@@ -151,6 +151,31 @@ Proof.
   destruct (unusual_loop cfg (muc_of cfg e) fnd' (tr_strings e)) as [[uds f2]|[]|c]; cbn [obind snd]; [exact Hq|exact I].
 Qed.
 
+(* head `let`: the tags emitted so far (list cdiag) are kept as local definitions o, o0, ..; every other local is substituted *)
+Ltac pose_let_t :=
+  lazymatch goal with
+  | |- (let x := ?v in @?B x) = ?R =>
+      let T := type of v in
+      let y := lazymatch T with list cdiag => fresh "o" | _ => fresh "y" end in
+      pose (y := v); change (B y = R); cbv beta
+  end.
+Ltac subst_small := repeat match goal with y := _ : ?T |- _ => lazymatch T with list cdiag => fail | _ => subst y end end.
+
+Ltac simpl_defs := repeat match goal with y := _ |- _ => progress cbn [fst snd] in y end.
+
+(* `if C then o ++ [d] else o = o ++ map f (if C' then [d'] else [])` with C, C' built from the same atoms *)
+Ltac atoms :=
+  cbv beta zeta; change (py_truthy (me_msgstr ?e)) with (has_msgstr e);
+  repeat match goal with
+         | |- context [c_template ?c] => destruct (c_template c)
+         | |- context [has_msgstr ?e] => destruct (has_msgstr e)
+         | |- context [has_msgstr_plural ?e] => destruct (has_msgstr_plural e)
+         | |- context [me_previous ?e] => destruct (me_previous e)
+         | b : bool |- _ => destruct b
+         | |- context [forallb ?f ?l] => destruct (forallb f l)
+         | |- context [existsb ?f ?l] => destruct (existsb f l)
+         end; cbn; rewrite ?app_nil_r; reflexivity.
+
 Theorem src_check_messages_eq cfg cat : Forall view_ok cat -> src_check_messages cfg cat = check_messages cfg (map fst cat).
 Proof.
 intros Hview. cbv beta delta [src_check_messages].
@@ -165,7 +190,7 @@ assert (Hlive : forall out cnt fnd fnd' seen i e v, view_ok (e, v) -> me_obsolet
    end).
 { intros out cnt fnd fnd' seen i e v [Hperm Hprev] Hobs Hhdr [Hcnt Hnil] Hfnd. cbn [fst snd] in Hperm, Hprev.
   subst body. cbv beta iota.
-  do 3 pose_let. cbn [fst snd] in y, y0, y1. subst y y0 y1.
+  repeat pose_let_t. simpl_defs. subst_small.
   rewrite Hobs, src_is_header_entry_eq, Hhdr.
   rewrite src_check_message_flags_eq. cbv beta delta [flags_spec].
   match goal with |- ?L = _ => set (lhs := L) end.
@@ -177,105 +202,100 @@ assert (Hlive : forall out cnt fnd fnd' seen i e v, view_ok (e, v) -> me_obsolet
   cbn [obind fst snd flags_info fi_fuzzy fi_formats].
   subst lhs.
   repeat (rewrite obind_Ok; cbv beta).
-  pose_let. pose_let. cbn [fst snd] in y, y0.
+  repeat pose_let_t. simpl_defs. subst_small.
   rewrite src_check_message_formats_eq.
-  assert (Hfz : pi_fuzzy y0 = existsb is_fuzzy_item items) by reflexivity.
-  assert (Hfm : sort_dedup str_compare (pi_formats y0) = map fst (dict_items (fmt_dict TpPos items))) by (symmetry; apply dict_items_keys).
-  rewrite Hfm. clearbody y0.
-  rewrite Hfz.
+  change (pi_fuzzy (src_info items)) with (existsb is_fuzzy_item items) in *.
+  change (pi_formats (src_info items)) with (map fst (fmt_dict TpPos items)).
+  rewrite <- dict_items_keys.
   assert (X : exists xd, (if xml_trigger (me_comment e) then xml_diags cfg (existsb is_fuzzy_item items) e else Ok []) = Ok xd).
   { destruct (xml_trigger (me_comment e)); eauto. apply xml_diags_total. }
   destruct X as [xd ->]. repeat (rewrite obind_Ok; cbv beta).
-  repeat pose_let.
-  (* the local variables in the model's terms *)
-  set (fz := existsb is_fuzzy_item items) in *.
-  assert (H5 : y5 = has_msgstr e) by reflexivity.
-  assert (H6 : y6 = has_msgstr_plural e).
-  { subst y6. unfold has_msgstr_plural. apply existsb_perm. exact Hperm. }
-  assert (H8 : y8 = starts_nl (me_msgid e)) by apply starts_nl_src.
-  assert (H9 : y9 = ends_nl (me_msgid e)) by apply ends_nl_src.
-  assert (H10 : y10 = me_previous e).
-  { subst y10. rewrite Hprev. cbn [existsb]. now rewrite orb_false_r, orb_assoc. }
-  assert (H13 : Permutation y13 (nl_strings fz e)).
-  { subst y13 y12. unfold nl_strings. rewrite H5, H6. cbv zeta.
-    destruct fz; cbn [negb]; [destruct (me_plural e); cbn; rewrite ?app_nil_r; reflexivity|].
-    rewrite app_assoc.
-    destruct (has_msgstr_plural e); [apply Permutation_app|rewrite !app_nil_r];
-      (destruct (has_msgstr e); [|rewrite ?app_nil_r]); destruct (me_plural e); cbn [app]; auto. }
-  assert (H17 : y17 = tr_strings e).
-  { subst y17 y16. unfold tr_strings. rewrite H5, H6. cbv zeta. destruct (has_msgstr e), (has_msgstr_plural e); reflexivity. }
-  clearbody y5 y6 y8 y9 y10 y13 y17. subst y5 y6 y8 y9 y10 y17. clear y12 y16.
-  (* the tags emitted so far, segment by segment *)
-  assert (H4 : y4 = y1 ++ map (AtMsg i) (if Nat.eqb (count_key (key_of e) seen) 1 then [MDuplicateDef] else [])).
-  { subst y4 y3 y2. cbv zeta. rewrite if_app, <- map_if1. f_equal.
+  repeat pose_let_t. simpl_defs. subst_small.
+  set (fz := existsb is_fuzzy_item items) in *. clearbody fz.
+  (* the code's expressions in the model's terms *)
+  assert (E6 : existsb (fun s : list N => py_truthy s) (mv_values v) = has_msgstr_plural e).
+  { unfold has_msgstr_plural. apply existsb_perm. exact Hperm. }
+  assert (E10 : existsb (fun s : option (list N) => is_some s) [mv_prev_ctxt v; mv_prev_id v; mv_prev_plural v] = me_previous e).
+  { rewrite Hprev. cbn [existsb]. now rewrite orb_false_r, orb_assoc. }
+  assert (Epa : forallb (fun s : list N => py_truthy s) (mv_values v) = negb (existsb (fun s => is_nil s) (me_msgstr_plural e))).
+  { rewrite <- (negb_involutive (forallb _ _)), forallb_existsb, (existsb_perm _ _ _ Hperm). f_equal.
+    apply existsb_ext'. intros x. unfold py_truthy. now rewrite negb_involutive. }
+  (* the tags emitted so far, segment by segment; `atoms` = case analysis on every boolean the conditions are made of *)
+  assert (H1 : o1 = o0 ++ map (AtMsg i) (if Nat.eqb (count_key (key_of e) seen) 1 then [MDuplicateDef] else [])).
+  { subst o1. rewrite if_app, <- map_if1. f_equal.
     unfold pd_getd at 1, pd_get, pd_set. cbn [find fst snd].
     change (pair_eqb str_eqb (option_eqb str_eqb)) with keqb. rewrite keqb_refl. cbn [snd].
-    change (me_msgid e, me_ctxt e) with (key_of e). rewrite Hcnt.
-    rewrite Nat.add_1_r. reflexivity. }
-  assert (H7 : y7 = y4 ++ map (AtMsg i) (if c_template cfg && (has_msgstr e || has_msgstr_plural e) then [MTranslationInTemplate] else [])).
-  { subst y7. cbv zeta. rewrite <- map_if1. destruct (c_template cfg); cbn [andb]; [apply if_app|now rewrite app_nil_r]. }
-  assert (H11 : y11 = y7 ++ map (AtMsg i) (if me_previous e && negb fz then [MStrayPrevious] else [])).
-  { subst y11. cbv zeta. rewrite <- map_if1. apply if_app. }
-  assert (H14 : y14 = y11 ++ map (AtMsg i) (if existsb (fun s => negb (eqb (starts_nl s) (starts_nl (me_msgid e)))) (nl_strings fz e) then [MLeadingNL] else [])).
-  { subst y14. cbv beta zeta. rewrite py_forb_exists, <- map_if1. f_equal.
-    rewrite (existsb_perm _ _ _ H13). erewrite existsb_ext'; [reflexivity|]. intros x. cbv beta. now rewrite starts_nl_src. }
-  assert (H15 : y15 = y14 ++ map (AtMsg i) (if existsb (fun s => negb (eqb (ends_nl s) (ends_nl (me_msgid e)))) (nl_strings fz e) then [MTrailingNL] else [])).
-  { subst y15. cbv beta zeta. rewrite py_forb_exists, <- map_if1. f_equal.
-    rewrite (existsb_perm _ _ _ H13). erewrite existsb_ext'; [reflexivity|]. intros x. cbv beta. now rewrite ends_nl_src. }
-  clearbody y4 y7 y11 y14 y15. clear H13 y13.
-  assert (Hy : y15 = out ++ map (AtMsg i) (flags_diags (c_formats cfg) (is_some (me_plural e)) items ++
+    change (me_msgid e, me_ctxt e) with (key_of e). rewrite Hcnt, Nat.add_1_r. reflexivity. }
+  assert (H2 : o2 = o1 ++ map (AtMsg i) (if c_template cfg && (has_msgstr e || has_msgstr_plural e) then [MTranslationInTemplate] else [])).
+  { subst o2. rewrite ?E6. atoms. }
+  assert (H3 : o3 = o2 ++ map (AtMsg i) (if me_previous e && negb fz then [MStrayPrevious] else [])).
+  { subst o3. rewrite ?E10. atoms. }
+  match goal with o := py_forb ?l _ _ |- _ => assert (H13 : Permutation l (nl_strings fz e)) end.
+  { unfold nl_strings. rewrite ?E6. change (py_truthy (me_msgstr e)) with (has_msgstr e).
+    destruct fz, (has_msgstr e), (has_msgstr_plural e), (me_plural e); cbn [negb app]; rewrite ?app_nil_r; repeat apply perm_skip;
+      first [exact Hperm | reflexivity]. }
+  assert (H4 : o4 = o3 ++ map (AtMsg i) (if existsb (fun s => negb (eqb (starts_nl s) (starts_nl (me_msgid e)))) (nl_strings fz e) then [MLeadingNL] else [])).
+  { subst o4. rewrite py_forb_exists, <- map_if1. f_equal.
+    rewrite (existsb_perm _ _ _ H13). erewrite existsb_ext'; [reflexivity|]. intros x. cbv beta. rewrite !starts_nl_src.
+    destruct (starts_nl x), (starts_nl (me_msgid e)); reflexivity. }
+  assert (H5 : o5 = o4 ++ map (AtMsg i) (if existsb (fun s => negb (eqb (ends_nl s) (ends_nl (me_msgid e)))) (nl_strings fz e) then [MTrailingNL] else [])).
+  { subst o5. rewrite py_forb_exists, <- map_if1. f_equal.
+    rewrite (existsb_perm _ _ _ H13). erewrite existsb_ext'; [reflexivity|]. intros x. cbv beta. rewrite !ends_nl_src.
+    destruct (ends_nl x), (ends_nl (me_msgid e)); reflexivity. }
+  assert (Hy : o5 = out ++ map (AtMsg i) (flags_diags (c_formats cfg) (is_some (me_plural e)) items ++
         dispatch (map fst (dict_items (fmt_dict TpPos items))) ++ xd ++
         (if Nat.eqb (count_key (key_of e) seen) 1 then [MDuplicateDef] else []) ++
         (if c_template cfg && (has_msgstr e || has_msgstr_plural e) then [MTranslationInTemplate] else []) ++
         (if me_previous e && negb fz then [MStrayPrevious] else []) ++
         (if existsb (fun s => negb (eqb (starts_nl s) (starts_nl (me_msgid e)))) (nl_strings fz e) then [MLeadingNL] else []) ++
         (if existsb (fun s => negb (eqb (ends_nl s) (ends_nl (me_msgid e)))) (nl_strings fz e) then [MTrailingNL] else []))).
-  { rewrite H15, H14, H11, H7, H4. subst y1 y. rewrite !map_app, <- !app_assoc. reflexivity. }
-  clear H15 H14 H11 H7 H4. clear y14 y11 y7 y4 y1 y.
+  { rewrite H5, H4, H3, H2, H1. subst o0 o. rewrite !map_app, <- !app_assoc. reflexivity. }
+  clear H5 H4 H3 H2 H1 H13. clearbody o5. clear o4 o3 o2 o1 o0 o.
+  (* the translations *)
+  match goal with |- context [py_for ?l _ _] => assert (H17 : l = tr_strings e) end.
+  { unfold tr_strings. rewrite ?E6. change (py_truthy (me_msgstr e)) with (has_msgstr e).
+    destruct (has_msgstr e), (has_msgstr_plural e); reflexivity. }
+  rewrite !H17. clear H17.
   (* the loop over the translations for unusual characters *)
-  assert (Hu : (if c_encoding cfg
-                then unusual_loop cfg (muc_of cfg e) fnd' (tr_strings e) else Ok ([], fnd')) = Ok ([], fnd') -> True) by auto.
   match goal with |- obind ?U ?K = _ =>
     assert (EU : U = match (if c_encoding cfg then unusual_loop cfg (muc_of cfg e) fnd' (tr_strings e) else Ok ([], fnd')) with
-                     | Ok (ds, _) => Ok (y15 ++ map (AtMsg i) ds, found_after cfg fnd e)
+                     | Ok (ds, _) => Ok (o5 ++ map (AtMsg i) ds, found_after cfg fnd e)
                      | Crash c => Crash c
                      | Err x => Err x
                      end)
   end.
   { cbv beta delta [found_after]. destruct (c_encoding cfg); cbv beta iota; [|now rewrite app_nil_r].
-    pose_let.
+    repeat pose_let_t. subst_small.
     match goal with |- obind (py_for _ _ ?b) _ = _ =>
-      destruct (unusual_generic cfg i (muc_of cfg e) b) with (strs := tr_strings e) (out := y15) (fnd := fnd) (fnd' := fnd') as [E _]
+      destruct (unusual_generic cfg i (muc_of cfg e) b) with (strs := tr_strings e) (out := o5) (fnd := fnd) (fnd' := fnd') as [E _]
     end.
-    - intros o f x. cbv beta iota zeta. subst y. rewrite ps_diff2_filter. fold (muc_of cfg e).
+    - intros o f x. cbv beta iota zeta. rewrite ps_diff2_filter. fold (muc_of cfg e).
       unfold py_truthy, py_char_names, ps_sorted, ps_union. rewrite negb_involutive.
       set (uc := filter _ _). destruct (is_nil uc); [reflexivity|].
       destruct (forallb (name_ok (c_ctlnames cfg)) (sort_dedup N.compare uc)); reflexivity.
     - exact Hfnd.
     - rewrite E. destruct (unusual_loop cfg (muc_of cfg e) fnd' (tr_strings e)) as [[ds f2]|[]|c]; reflexivity. }
-  rewrite EU. clear EU Hu.
+  rewrite EU. clear EU.
   fold (muc_of cfg e).
   destruct (if c_encoding cfg then unusual_loop cfg (muc_of cfg e) fnd' (tr_strings e) else Ok ([], fnd')) as [[uds f2']|[]|c];
     [|reflexivity].
   cbv beta iota. rewrite !obind_Ok. cbv beta iota.
-  pose_let.
-  assert (Hfin : y = y15 ++ map (AtMsg i) uds ++ map (AtMsg i)
+  repeat pose_let_t. subst_small.
+  match goal with o := _ : list cdiag |- _ =>
+  assert (Hfin : o = o5 ++ map (AtMsg i) uds ++ map (AtMsg i)
            ((if fz then [] else match first_marker (tr_strings e) with Some m => [MConflictMarker m] | None => [] end) ++
-            (if negb fz && has_msgstr_plural e && existsb (fun s => is_nil s) (me_msgstr_plural e) then [MPartial] else []))).
-  { subst y. cbv beta zeta. rewrite py_forb_first, if_app, <- app_assoc.
-    destruct fz; cbn [negb andb]; [now rewrite !app_nil_r|].
+            (if negb fz && has_msgstr_plural e && existsb (fun s => is_nil s) (me_msgstr_plural e) then [MPartial] else [])));
+  [subst o|clearbody o; subst o] end.
+  { cbv beta zeta. rewrite py_forb_first, ?E6, ?Epa.
     assert (Hcm : (fix go (l : list (list N)) : list cdiag := match l with [] => [] | x :: r =>
                      match search_marker x with Some m => [AtMsg i (MConflictMarker m)] | None => go r end end) (tr_strings e)
                   = map (AtMsg i) (match first_marker (tr_strings e) with Some m => [MConflictMarker m] | None => [] end)).
     { induction (tr_strings e) as [|s l IH]; cbn [first_marker]; [reflexivity|].
       destruct (search_marker s); [reflexivity|exact IH]. }
-    assert (Hpa : (has_msgstr_plural e && negb (forallb (fun s : list N => py_truthy s) (mv_values v))) =
-                  (has_msgstr_plural e && existsb (fun s => is_nil s) (me_msgstr_plural e))).
-    { f_equal. rewrite forallb_existsb, (existsb_perm _ _ _ Hperm).
-      erewrite existsb_ext'; [reflexivity|]. intros x. unfold py_truthy. now rewrite negb_involutive. }
-    rewrite Hcm, Hpa, map_app, <- map_if1, <- !app_assoc. reflexivity. }
-  clearbody y. subst y y15. cbn [fst snd].
-  unfold cnt_after. subst y3 y2. change (pair_eqb str_eqb (option_eqb str_eqb)) with keqb. change (me_msgid e, me_ctxt e) with (key_of e).
+    rewrite Hcm. rewrite <- !app_assoc. f_equal. f_equal. rewrite map_app.
+    destruct (first_marker (tr_strings e)); atoms. }
+  subst o5. cbn [fst snd].
+  unfold cnt_after. change (pair_eqb str_eqb (option_eqb str_eqb)) with keqb. change (me_msgid e, me_ctxt e) with (key_of e).
   rewrite <- !app_assoc, <- !map_app, <- !app_assoc. reflexivity. }
 assert (Hdead : forall st i e v, (me_obsolete e = true \/ is_header e = true) -> body st (i, (e, v)) = Ok (false, st)).
 { intros [[out cnt] fnd] i e v H. subst body. cbv beta iota. do 3 pose_let. cbn [fst snd] in y, y0, y1. subst y y0 y1.
